@@ -380,6 +380,10 @@ def run(rep, sub=False):
                   f'the stage map consulted for `visibility:` is not the map computed by the stage walk ({[E.show(g[1], maxdepth=3) for g in gets][:2]})',
                   ok_detail='layout entries consult the map returned by the stage walk')
     rep.floor('top-level function wiring the stage map into the layout entries', n_wire, 1)
+    if not sub:
+        # the stage set of the push-constant range is part of this property's statement; its wiring is decided by C13's rules
+        from common import include
+        include(rep, 'c13', ('C13.stages', 'C13.wiring', 'C13.fallback', 'C13.selection', 'C13.iff'), 'push-constant-stages')
 
 
 def module_param(crate, q, is_module):
